@@ -74,8 +74,10 @@ func checkDataRoundTripOn(c *core.Ctx, d dataCase, mic [4]byte, base *lorawan.PH
 		c.Violate("C01|data|encode-refused|"+err.Error(), "spec-valid frame refused: %v\nframe=%s", err, short(core.Dump(phy), 900))
 		return
 	}
-	want := append(d.Spec.Msg(), mic[:]...)
-	_ = want
+	if want := append(d.Spec.Msg(), mic[:]...); !bytes.Equal(b, want) {
+		c.Violate("C01|data|wire-differs-from-spec", "frame encodes to %s, the specification's serialisation of the same fields is %s", short(core.Hex(b), 600), short(core.Hex(want), 600))
+		return
+	}
 	var out lorawan.PHYPayload
 	if p, msg := core.Guard(func() { err = out.UnmarshalBinary(b) }); p {
 		c.Violate("C01|data|unmarshal-panic|"+core.PanicSite(msg), "bytes %s: %s", core.Hex(b), msg)
@@ -402,6 +404,18 @@ func runC01(c *core.Ctx) {
 			prev := genDataCase(r, anyData())
 			var base lorawan.PHYPayload
 			if base.UnmarshalBinary(append(prev.Spec.Msg(), 9, 9, 9, 9)) == nil {
+				if i%8 == 0 {
+					// ... and that was, in between, refused by the encoder (an error path must not leave anything behind)
+					if bmp, ok := base.MACPayload.(*lorawan.MACPayload); ok {
+						keep := bmp.FHDR.FOpts
+						bmp.FHDR.FOpts = []lorawan.Payload{&lorawan.DataPayload{Bytes: r.Bytes(16 + r.Intn(5))}}
+						if _, err := base.MarshalBinary(); err == nil {
+							c.Violate("C01|data|overlong-fopts-encoded", "a frame with more than 15 bytes of FOpts was encoded")
+						}
+						bmp.FHDR.FOpts = keep
+						c.Count("frames.edited-after-refused-encode", 1)
+					}
+				}
 				checkDataRoundTripOn(c, d, mic, &base)
 				c.Count("frames.edited-after-decode", 1)
 			}
